@@ -22,6 +22,9 @@ if rc2 != 0:
 common.build_modelrun()
 ok, out = common.build_harness()
 print("harness build:", "ok" if ok else out[-3000:])
+if ok:
+    ok, out = common.build_harness(debug=True)      # C20 also runs the plain debug profile
+    print("harness build (debug profile):", "ok" if ok else out[-3000:])
 sys.exit(0 if ok else 1)
 PY
 echo "setup done"
